@@ -721,22 +721,28 @@ class MessageType:
         # kingdoms/{kingdom}/phyla/{phylum}
         # becomes the regex
         # ^kingdoms/(?P<kingdom>.+?)/phyla/(?P<phylum>.+?)$
+        # PATH_ARG_RE has one group, so split() alternates literal text
+        # (even positions) and resource ID names (odd positions).
+        pieces = self.PATH_ARG_RE.split(self.resource_path or "")
         parsing_regex_str = (
             "^"
-            + self.PATH_ARG_RE.sub(
+            + "".join(
                 # We can't just use (?P<name>[^/]+) because segments may be
                 # separated by delimiters other than '/'.
                 # Multiple delimiter characters within one schema are allowed,
                 # e.g.
                 # as/{a}-{b}/cs/{c}%{d}_{e}
                 # This is discouraged but permitted by AIP4231
-                lambda m: "(?P<{name}>.+?)".format(name=m.groups()[0]),
-                self.resource_path or "",
+                "(?P<{name}>.+?)".format(name=piece)
+                if i % 2
+                # Literal text must match literally (e.g. the '.' in '{a}.{b}').
+                else re.escape(piece)
+                for i, piece in enumerate(pieces)
             )
             + "$"
         )
         # Special case for wildcard resource names
-        if parsing_regex_str == "^*$":
+        if (self.resource_path or "") == "*":
             parsing_regex_str = "^.*$"
 
         return parsing_regex_str
